@@ -309,6 +309,8 @@ deriving Repr, DecidableEq
 def fromPasswordRc4 (P : Prims) (d : CryptDict) (id pass : Bytes) (level keyBits : Nat) (m : Method) : Out PwResult :=
   let keySize := keyBits / 8
   if keySize = 0 then .err
+  -- `MAX_KEY_SIZE`: no cipher takes more than the 32 bytes of AES-256; refused before the key buffer is allocated
+  else if keySize > 32 then .err
   else
     -- `/EncryptMetadata` has a meaning from revision 4 on only
     let encryptMetadata := d.encryptMetadata || decide (level < 4)
